@@ -7,6 +7,11 @@ HERE = os.path.dirname(os.path.dirname(os.path.abspath(__file__)))
 
 # id -> (engine, technique, level text, level note, design ref)
 CHECKS = {
+    "C07": ("XH", "CrossHair-driven enumeration (z3 choice variables for the first adjacency row / component size and matching set) with native sweeps over all dependency graphs, "
+            "all non-decreasing pin assignments, all parent tag subsets; stub git repositories; oracle from the statement",
+            "bounded exhaustive exploration with exhaustion certificate: (a) all dependency graphs over <= 4 repositories incl. cycles; (b) linear component of 2-4 builds x parent families "
+            "(linear 1-4, release + master) x every valid pin assignment x every tag subset",
+            "no merges in the parent history in part (b); reporting for a branch whose first shipping build belongs to a lower-sorted branch is not asserted", "DESIGN.md 3/C07"),
     "C06": ("XH", "CrossHair-driven enumeration of commit-graph shapes and branch-head positions (z3 choice variables) with native sweeps over ALL placements of build tags and matching messages; "
             "stub git repository; reachability oracle from the statement; BranchName order checked symbolically for all non-negative ints",
             "bounded exhaustive exploration with exhaustion certificate: 16 graph shapes of <= 6 commits x every release-head position x all 2^n tag subsets x all matching subsets; "
